@@ -7,31 +7,44 @@ import Kopf.Lemmas.C14_Step
 namespace Kopf.C14
 open Kopf Kopf.C02
 
-theorem stepWith_invoked (raises : List ResultShape → Bool) (decls : List Decl) (m : Option Mem) (P : Store) (e : Event)
+theorem stepWith_invoked (old : Bool) (raises : List ResultShape → Bool) (decls : List Decl) (m : Option Mem) (P : Store) (e : Event)
     (rs : List ResultShape) (pl : Bool) :
-    (stepWith raises decls m P e rs pl).invoked = (step decls m P e).invoked := by
+    (stepWith old raises decls m P e rs pl).invoked = (step decls m P e).invoked := by
   unfold stepWith
   split
-  · rfl
+  · cases old <;> rfl
   · split <;> rfl
 
-/-- the memory a cycle leaves: the plain step's, or — cut before the bookkeeping — the recalled one -/
-theorem stepWith_mem (raises : List ResultShape → Bool) (decls : List Decl) (m : Option Mem) (P : Store) (e : Event)
+/-- the memory the cycle cut in the delivery leaves, through the bridge of `step_eq` -/
+theorem cutAtDelivery_mem (decls : List Decl) (m : Option Mem) (P : Store) (e : Event) :
+    (cutAtDelivery decls m P e).mem =
+      (if e.deleted then none else some
+        { recall m e with resumed := (recall m e).resumed ++ finalsOf decls (recall m e) e P }) := by
+  have hf := cycleFinalsB_eq (cfgOf decls (recall m e) e) (boundOf decls (causeOf (recall m e) e)) P e.now e.exec
+  unfold cutAtDelivery
+  simp only
+  rw [hf]
+  rfl
+
+/-- the memory a cycle leaves: the plain step's, or — cut in the delivery of the results — that of the cut -/
+theorem stepWith_mem (old : Bool) (raises : List ResultShape → Bool) (decls : List Decl) (m : Option Mem) (P : Store) (e : Event)
     (rs : List ResultShape) (pl : Bool) :
-    (stepWith raises decls m P e rs pl).mem = (step decls m P e).mem ∨
-    ((stepWith raises decls m P e rs pl).mem = (if e.deleted then none else some (recall m e)) ∧ raises rs = true) := by
+    (stepWith old raises decls m P e rs pl).mem = (step decls m P e).mem ∨
+    ((stepWith old raises decls m P e rs pl).mem =
+        (if old then cutBeforeMemoryOld decls m P e else cutAtDelivery decls m P e).mem ∧
+      e.suppressed = false ∧ raises rs = true) := by
   unfold stepWith
   split
   · rename_i h
     right
-    simp only [Bool.and_eq_true] at h
-    exact ⟨rfl, h.2⟩
+    simp only [Bool.and_eq_true, Bool.not_eq_true'] at h
+    exact ⟨rfl, h.1.1, h.2⟩
   · left; split <;> rfl
 
-theorem stepWith_mem_of_not_raises (raises : List ResultShape → Bool) (decls : List Decl) (m : Option Mem) (P : Store)
+theorem stepWith_mem_of_not_raises (old : Bool) (raises : List ResultShape → Bool) (decls : List Decl) (m : Option Mem) (P : Store)
     (e : Event) (rs : List ResultShape) (pl : Bool) (h : raises rs = false) :
-    (stepWith raises decls m P e rs pl).mem = (step decls m P e).mem := by
-  rcases stepWith_mem raises decls m P e rs pl with h' | ⟨_, h'⟩
+    (stepWith old raises decls m P e rs pl).mem = (step decls m P e).mem := by
+  rcases stepWith_mem old raises decls m P e rs pl with h' | ⟨_, _, h'⟩
   · exact h'
   · rw [h] at h'; cases h'
 
